@@ -575,7 +575,7 @@ class InverseLaplaceTransformer(UnilateralInverseTransformer):
 
                 for term in terms:
                     term = term.simplify()
-                    cterm, uterm = self.term(term, s, t, **kwargs)
+                    cterm, uterm = self.term(term * sym.exp(-s * delay), s, t, **kwargs)
                     cresult += cterm
                     uresult += uterm
                 return cresult, uresult
